@@ -3,6 +3,12 @@ import sys
 
 import comp_check
 
+
+def net_pass(rep, thorough):
+    """whole-model scan: every store, arc record and admitted flow at every pre-close-out point"""
+    import net_check
+    return net_check.monitor_models(rep, "C06", 800 if thorough else 120, 5)
+
 RULE = ("correspondence: random operation sequences (pushes incl. forced/dry-mass/sub-epsilon, pulls, pollutant pulls, "
         "evaporation, checks, balance calls, timestep ends with varying temperature) on Tank/ResidenceTank/DecayTank, "
         "QueueTank/DecayQueueTank, Arc/PullArc/PushArc, QueueArc/DecayArc and AltQueueArc/DecayArcAlt between tank-backed or scripted (accept all / "
@@ -14,4 +20,4 @@ if __name__ == "__main__":
     sys.exit(comp_check.run("C06", "tank qtank arc qarc altarc".split(), RULE,
                             ["exact-rational semantics stands for float semantics up to rounding",
                              "offers are wet (non-negative, pollutant mass only with positive volume); no arc-level force for capacity clauses",
-                             "end nodes respect the reply contract (proved for tank-backed ends)"]))
+                             "end nodes respect the reply contract (proved for tank-backed ends)"], extra=net_pass))
